@@ -81,6 +81,10 @@ MayKinds(d, o, x) ==
   UNION {  (IF TakesInput(d, o, x, i) /\ DepDoubtful(d, o, x, i) THEN {"deps"} ELSE {})
       \* some but not all values given for the field are invalid: whether its dependencies count depends on which one is taken
       \cup (IF TakesInput(d, o, x, i) /\ DepMissing(d, o, x, i) /\ (\E y \in ProvidedIdx(d, o, x, i) : ~Fails(x[y].v)) THEN {"deps"} ELSE {})
+      \* an invalid value that invalid_values='exclude' replaced by a default: whether the field then counts as given (and its
+      \* dependencies are required) is not documented (found by MC_DataLoops: exclude + force_default, {b: 'x'} with b depending on a)
+      \cup (IF TakesInput(d, o, x, i) /\ (DepMissing(d, o, x, i) \/ DepDoubtful(d, o, x, i)) /\ o.exclude /\ DefaultOf(d.fields[i], o) # Unprov
+                /\ (\E y \in ProvidedIdx(d, o, x, i) : Fails(x[y].v)) THEN {"deps"} ELSE {})
       \* a field that does not take input ignores what is provided for it; a conflict among the ignored values may
       \* or may not be reported
       \cup (IF ~TakesInput(d, o, x, i) /\ Conflict(d, o, x, i) THEN {"alias"} ELSE {})
